@@ -416,6 +416,43 @@ func init() {
 			{Name: "triples-G1", Space: unionSpace([][]Input{g2[:min(len(g2), 6)], g1, g2[:min(len(g2), 6)]}), Eval: evalC09(grid),
 				Bound: "triples of small connected graphs (cumulative shift needs three components), all interleavings"},
 		}
+		// richer components (crossings, long edges, wide layers) in two interleavings: sequential and alternating —
+		// where state leaking from one pipeline pass into the next has something to act on
+		rich := []Input{
+			relabel([]int{0, 2, 0, 3, 1, 2, 1, 3}),                   // K2,2
+			relabel([]int{0, 3, 1, 2, 0, 2, 1, 3}),                   // K2,2, crossing edge order
+			relabel([]int{0, 1, 0, 2, 1, 3, 2, 3, 0, 3}),             // diamond with a long edge
+			relabel([]int{0, 1, 1, 2, 2, 3, 0, 3, 0, 2, 1, 3}),       // K4 as a DAG
+			relabel([]int{0, 3, 0, 4, 1, 3, 1, 5, 2, 4, 2, 5}),       // 3x3 bipartite cycle
+			relabel([]int{0, 1, 1, 2, 2, 0, 2, 3, 3, 1}),             // cycles
+			relabel([]int{0, 1, 0, 2, 0, 3, 1, 4, 2, 4, 3, 4, 0, 4}), // fan with a long edge
+			relabel([]int{0, 0, 0, 1, 1, 2, 0, 2, 2, 2}),             // self-loops and a long edge
+		}
+		ps = append(ps, &Pass{Name: "pairs-rich", Eval: evalC09(gridSpec{P1: []int{0}, P2: allP2, P4: allP4, P5: []int{2}, SZ: []int{1, 7}}.list()),
+			Space: func(emit func(Input)) {
+				for _, a := range rich {
+					for _, b := range rich {
+						var seq, alt []int
+						for i := 0; i < a.M(); i++ {
+							seq = append(seq, a.E[2*i], a.E[2*i+1])
+						}
+						for i := 0; i < b.M(); i++ {
+							seq = append(seq, 1000+b.E[2*i], 1000+b.E[2*i+1])
+						}
+						for i := 0; i < max(a.M(), b.M()); i++ {
+							if i < a.M() {
+								alt = append(alt, a.E[2*i], a.E[2*i+1])
+							}
+							if i < b.M() {
+								alt = append(alt, 1000+b.E[2*i], 1000+b.E[2*i+1])
+							}
+						}
+						emit(namedUnion(seq))
+						emit(namedUnion(alt))
+					}
+				}
+			},
+			Bound: "every ordered pair of 8 richer connected graphs (K2,2, K4, bipartite cycle, long edges, cycles, self-loops) in 2 interleavings (sequential, alternating) x greedy x {ns,lp} x 9 positioners x {fixed, per-name} sizes"})
 		if tier == "thorough" {
 			ps = append(ps,
 				&Pass{Name: "pairs-G3xG3", Space: unionSpace([][]Input{g3, g3}), Eval: evalC09(gridSpec{P1: []int{0}, P2: allP2, P4: []int{0, 1, 3, 4}, P5: []int{2}, SZ: []int{7}}.list()),
